@@ -51,7 +51,7 @@ package snapshot
 //@   props C08, C09
 //@   modifies unmountTried[*], removeTried[*], cleanups
 //@   ghostentry cleanups = cleanups + 1
-//@   assert[C08] before "if err := os.RemoveAll(dir); err != nil {" : unmountTried[mp]
+//@   assert[C08] before "os.RemoveAll(dir)" : unmountTried[mp]
 //@   ensures[C08] cleanups == old(cleanups) + 1
 //@   ensures[C09] removeTried[dir]
 
@@ -88,7 +88,7 @@ package snapshot
 //@ func (o *snapshotter) createSnapshot
 //@   props C09,C08
 //@   requires o.ms != nil
-//@   assert[C09] before "if err = t.Commit(); err != nil {" : dirInPlace[path]
+//@   assert[C09] before "t.Commit()" : dirInPlace[path]
 //@   ensures[C08] remoteCommitTried == old(remoteCommitTried) && fsMountsOK == old(fsMountsOK)
 
 // ---- C09: the restore loop attempts the backend mount of every recorded remote snapshot ----
@@ -146,6 +146,6 @@ package snapshot
 //@   props C08
 //@   requires o.ms != nil && (forall j int :: 0 <= j && j < len(opts) ==> opts[j] != nil)
 //@   loop 0 invariant[C08] (forall j int :: 0 <= j && j < len(rangeslice) ==> rangeslice[j] != nil) && remoteCommitTried == old(remoteCommitTried) && fsMountsOK == old(fsMountsOK)
-//@   assert[C08] before "err := o.commit(ctx, true, target, key, append(opts, snapshots.WithLabels(base.Labels))...)" : base.Labels != nil && base.Labels[remoteLabel] == remoteLabelVal && fsMountsOK == old(fsMountsOK) + 1
+//@   assert[C08] before "o.commit(ctx, true, target, key" : base.Labels != nil && base.Labels[remoteLabel] == remoteLabelVal && fsMountsOK == old(fsMountsOK) + 1
 //@   ensures[C08] result1 == nil ==> remoteCommitTried == old(remoteCommitTried)
 //@   ensures[C08] remoteCommitTried == old(remoteCommitTried) || remoteCommitTried == old(remoteCommitTried) + 1
